@@ -671,7 +671,12 @@ pub fn child_main(args: &[String]) -> i32 {
         let s = &scenes[i - start];
         an.line(&format!("c {}", i));
         transitions += s.ops.len() as u64;
-        match run_case(s) {
+        let t0 = std::time::Instant::now();
+        let rc = run_case(s);
+        if std::env::var("VERIF_C07_SLOW_MS").ok().and_then(|v| v.parse::<u128>().ok()).map_or(false, |ms| t0.elapsed().as_millis() >= ms) {
+            eprintln!("SLOW {} ms: {}", t0.elapsed().as_millis(), s);
+        }
+        match rc {
             Ok(h) => {
                 nontrivial += 1;
                 if seen.len() < 20_000 {
